@@ -1,4 +1,4 @@
-"""A persistable listener that takes a Bundle of the process at every RUNNING / WAITING entry (module level so
+"""A persistable listener that takes a Bundle of the process at every RUNNING / WAITING entry and whenever it is told of a pause (module level so
 that it is loadable when the bundle is restored)."""
 import plumpy
 
@@ -12,5 +12,9 @@ class Saver(plumpy.ProcessListener):
             BUNDLES.append((len(process._sc_trace), plumpy.Bundle(process)))
 
     def on_process_waiting(self, process):
+        if SAVING[0]:
+            BUNDLES.append((len(process._sc_trace), plumpy.Bundle(process)))
+
+    def on_process_paused(self, process):
         if SAVING[0]:
             BUNDLES.append((len(process._sc_trace), plumpy.Bundle(process)))
